@@ -31,6 +31,9 @@ def main():
     try:
         sh("cp -r /repo/. %s/" % D, "/")
         rc, out = sh("git apply %s" % os.path.join(src, "patch.diff"), D)
+        if rc != 0:
+            # /repo has moved on since the change was written (fix: commits): three-way
+            rc, out = sh("git apply -3 %s" % os.path.join(src, "patch.diff"), D)
         res["patch_applies"] = rc == 0
         if rc != 0:
             print("patch does not apply:", out[:500])
